@@ -55,6 +55,8 @@ func main() {
 			os.Exit(code)
 		}
 		os.Exit(c.Run(tier))
+	case "selftest":
+		os.Exit(checks.Selftest())
 	case "instr":
 		res, err := instr.Instrument(os.Args[2], os.Args[3])
 		if err != nil {
